@@ -355,6 +355,10 @@ class ArrayView(object):
 
     def count(self):
         es = self.elem_size()
+        if es and isinstance(self.store, BitStore) and known(self.requested) and self.requested is not None:
+            # a bit block carries its declared size whether or not its container is readable (or even locatable):
+            # the element count is always the declared one, the elements are simply not Ok
+            return self.requested // es
         if self.store.null or not es:
             return UNKNOWN
         if self.store.size != self.requested:
